@@ -875,11 +875,11 @@ class Query(Queryable, Statement):
         value = repr(self.source)
         if self.selection:
             value += f'[{", ".join(repr(c) for c in self.selection)}]'
-        if self.prefilter:
+        if self.prefilter is not None:
             value += f'.where({repr(self.prefilter)})'
         if self.grouping:
             value += f'.groupby({", ".join(repr(c) for c in self.grouping)})'
-        if self.postfilter:
+        if self.postfilter is not None:
             value += f'.having({repr(self.postfilter)})'
         if self.ordering:
             value += f'.orderby({", ".join(repr(c) for c in self.ordering)})'
